@@ -35,6 +35,9 @@ def check(ctx, tier):
     hazards.h3_diff_as_comparison(ctx, tk, "C14.c", fs)
     hazards.h5_python_list_promotion(ctx, tk, "C14.e", us)
     W.report(ctx, tk, "C14.f", fs + us)
+    tk.purity("C14.p", [ctx.func(q) for q in ['runlengtharray.RunLengthArray.from_array', 'runlengtharray.RunLengthArray.to_array', 'runlengtharray.RunLengthArray.__array__', 'runlengtharray.RunLengthArray.remove_empty_intervals', 'runlengtharray.RunLengthArray.join_runs', 'runlengtharray.RunLengthArray._step_subset']], "the operation does not write into its operands' buffers", content_only=True)
+    from .. import hazards as _hz, scopes as _sc
+    _hz.generic(ctx, tk, "C14.z", _sc.scope(tk, "C14"))
     return {}
 
 
@@ -150,6 +153,15 @@ def decoder(ctx, tk):
                     ok = npkb.ITEMSIZE[src] == npkb.ITEMSIZE[tgt] and tgt in npkb.UNSIGNED
                     ctx.decide("C14.d", f, "float values are reinterpreted as unsigned integers of the same width", ok,
                                "%s is viewed as %s" % (src, tgt), node=n.ast, key="width:" + src, engine="E6")
+    for n in fa.cfg.stmts():
+        if n.kind == "stmt" and isinstance(n.ast, ast.Assign):
+            tm = fa.term(n.ast.value, n)
+            if tm.k == "call" and tm.a[0].k == "attr" and tm.a[0].a[1] == "view" and tm.a[1] and (attr_chain(tm.a[1][0]) or ("",))[-1] in npkb.UNSIGNED:
+                recv = tm.a[0].a[0]
+                conv = any(x.k == "call" and x.a[0].k == "attr" and x.a[0].a[1] == "astype" for x in alts(recv))
+                ctx.decide("C14.d", f, "the bit reinterpretation views the values as they are (same width), without converting them first", not conv,
+                           "`%s` widens the values before viewing them as integers, but the result is viewed back as the original (narrower) dtype: float32/float16 arrays "
+                           "decode to 2x/4x the length" % (tm,), node=n.ast, key="no-astype:%s" % n.lineno, engine="E6")
     # xor op agreement
     ops = []
     for n in fa.cfg.stmts():
